@@ -1,11 +1,245 @@
-/- C03 — analytic second derivatives (assembly).  Statements below; model in Ecpint/Model/Deriv.lean. -/
-import Ecpint.Model.Deriv
-namespace Ecpint.C03
-open Ecpint.Deriv
+/-
+C03 — analytic second derivatives of a shell pair: the assembly.
 
-/-- `jaas[3p+q]` is the symmetric component of (p,q); `jbbs[3p+q] = 3q+p` -/
+Model: Ecpint/Model/Deriv.lean (`N_INDEX`, `jaas`, `jbbs` from Gen/IndexMaps.lean, regenerated every run).
+Proved here for EVERY angular momentum, over any commutative ring:
+  * `left_shell_second_derivative` and `mixed_second_derivative` return the l−2 / l / l+2 resp.
+    (l_A ± 1, l_B ± 1) combinations for every component, every guard/clamp is only met by a zero
+    multiplier, the zero-filled stand-in blocks for s shells only meet zero multipliers;
+  * the 45-matrix layout of `compute_shell_pair_second_derivative`, the translational sum rules
+    AC = −(AA + AB), BC = −(BB + BA), CC = AA + AB + BA + BB, the irrelevance of the write order of the
+    CC block, and the conventions returned when a shell sits on the ECP centre (these are exactly the
+    hypothesis `LowLevelConvention` of C04).
+-/
+import Ecpint.Model.Deriv
+import Ecpint.Props.C02
+import Mathlib.Tactic.Ring
+import Mathlib.Tactic.Linarith
+
+namespace Ecpint.C03
+open Ecpint.Deriv Ecpint.C02
+
+/-! ### index tables -/
+
+/-- position of the symmetric component {p,q} among xx xy xz yy yz zz -/
+def symIdx (p q : Nat) : Nat :=
+  if min p q = 0 then max p q else if min p q = 1 then max p q + 2 else 5
+
+/-- `jbbs[3p+q] = 3q+p` (transposed component) -/
 theorem jbbs_spec : ∀ p < 3, ∀ q < 3, Gen.jbbs.getD (3 * p + q) 0 = 3 * q + p := by decide
-theorem jaas_spec : ∀ p < 3, ∀ q < 3, Gen.jaas.getD (3 * p + q) 0
-    = (if min p q = 0 then max p q else if min p q = 1 then max p q + 2 else 5) := by decide
+/-- `jaas[3p+q]` is the symmetric component of (p,q) -/
+theorem jaas_spec : ∀ p < 3, ∀ q < 3, Gen.jaas.getD (3 * p + q) 0 = symIdx p q := by decide
+
+section
+variable {R : Type} [CommRing R]
+
+/-! ### left_shell_second_derivative -/
+
+/-- `Q_minus.dims[0]` as the routine sees it: the (LA−2)-shell when LA > 1, a 1-row zero block otherwise -/
+def qmRows2 (LA : Nat) : Nat := if LA > 1 then ncart (LA - 2) else 1
+
+/-- **six second derivatives with respect to one centre**, for every component `a` and p ≤ q:
+a_p(a_p−1)·Q₋[a−2e_p] − 2(2a_p+1)·Q₀[a] + 4·Q₊[a+2e_p] on the diagonal,
+a_p a_q·Q₋[a−e_p−e_q] − 2a_p·Q₀[a−e_p+e_q] − 2a_q·Q₀[a+e_p−e_q] + 4·Q₊[a+e_p+e_q] off it;
+a term is absent exactly when its integer multiplier is zero. -/
+theorem leftSecond_spec (a : Nat × Nat × Nat) (p q : Nat) (hpq : p ≤ q) (hq : q < 3) (nB : Nat)
+    (Qm Q0 Qp : Blk R) :
+    leftSecond (deg a) (qmRows2 (deg a)) Qm Q0 Qp (symIdx p q) (rowOf a) nB
+      = if p = q then
+          (if comp a p < 2 then 0
+            else ((comp a p * (comp a p - 1) : Nat) : R) * Qm (rowOf (dec (dec a p) p)) nB)
+          - 2 * ((2 * comp a p + 1 : Nat) : R) * Q0 (rowOf a) nB
+          + 4 * Qp (rowOf (inc (inc a p) p)) nB
+        else
+          (if comp a p = 0 ∨ comp a q = 0 then 0
+            else ((comp a p * comp a q : Nat) : R) * Qm (rowOf (dec (dec a p) q)) nB)
+          - (if comp a p = 0 then 0 else 2 * ((comp a p : Nat) : R) * Q0 (rowOf (inc (dec a p) q)) nB)
+          - (if comp a q = 0 then 0 else 2 * ((comp a q : Nat) : R) * Q0 (rowOf (dec (inc a p) q)) nB)
+          + 4 * Qp (rowOf (inc (inc a p) q)) nB := by
+  unfold leftSecond
+  simp only [cartList_rowOf]
+  obtain ⟨k, l, m⟩ := a
+  interval_cases q <;> interval_cases p <;>
+    simp [symIdx, comp, inc, dec, rowOf, two, four, deg]
+  · -- xx
+    by_cases hk : k ≤ 1
+    · interval_cases k <;> simp
+    · have hlt := nIdx_lt_ncart (l := l) (m := m) (L := k + l + m - 2) (by omega)
+      have hrows : qmRows2 (k + l + m) = ncart (k + l + m - 2) := by
+        simp only [qmRows2]; rw [if_pos (by omega)]
+      have hmin : min (nIdx l m) (qmRows2 (k + l + m) - 1) = nIdx l m := by omega
+      rw [hmin, if_neg hk]
+  · -- xy
+    rcases Nat.eq_zero_or_pos k with rfl | hk <;> rcases Nat.eq_zero_or_pos l with rfl | hl <;>
+      simp [*, Nat.ne_of_gt]
+  · -- yy
+    by_cases hl : l ≤ 1
+    · interval_cases l <;> simp
+    · rw [if_pos (by omega), if_neg hl, Nat.sub_sub]
+  · -- xz
+    rcases Nat.eq_zero_or_pos k with rfl | hk <;> rcases Nat.eq_zero_or_pos m with rfl | hm <;>
+      simp [*, Nat.ne_of_gt]
+  · -- yz
+    rcases Nat.eq_zero_or_pos l with rfl | hl <;> rcases Nat.eq_zero_or_pos m with rfl | hm <;>
+      simp [*, Nat.ne_of_gt]
+  · -- zz
+    by_cases hm : m ≤ 1
+    · interval_cases m <;> simp
+    · rw [if_pos (by omega), if_neg hm, Nat.sub_sub]
+
+/-- rows addressed by the formula are inside the shifted shells -/
+theorem leftSecond_rows_in_range (a : Nat × Nat × Nat) (p q : Nat) (hp : p < 3) (hq : q < 3) :
+    rowOf (inc (inc a p) q) < ncart (deg a + 2) ∧
+    (comp a p ≠ 0 → rowOf (inc (dec a p) q) < ncart (deg a)) ∧
+    (comp a p ≠ 0 → comp a q ≠ 0 → (p = q → 2 ≤ comp a p) → rowOf (dec (dec a p) q) < ncart (deg a - 2)) := by
+  obtain ⟨k, l, m⟩ := a
+  interval_cases p <;> interval_cases q <;>
+    simp +decide only [inc, dec, comp, rowOf, deg, if_true, if_false] <;>
+    refine ⟨nIdx_lt_ncart (by omega), fun h1 => nIdx_lt_ncart (by omega),
+      fun h1 h2 h3 => nIdx_lt_ncart ?_⟩ <;>
+    simp at h3 <;> omega
+
+/-! ### mixed_second_derivative -/
+
+/-- `Q_mm.dims` as the routine sees them, computed or zero-filled -/
+def mmDim (L : Nat) : Nat := max 1 (L * (L + 1) / 2)
+
+theorem mmDim_pos (L : Nat) : 0 < mmDim L := by
+  unfold mmDim; omega
+
+theorem ncart_pred_le_mmDim (L : Nat) (h : 0 < L) : ncart (L - 1) ≤ mmDim L := by
+  unfold mmDim ncart
+  have h1 : L - 1 + 1 = L := by omega
+  have h2 : L - 1 + 2 = L + 1 := by omega
+  rw [h1, h2]
+  exact Nat.le_max_right _ _
+
+theorem idxPlus_eq (a : Nat × Nat × Nat) (p : Nat) (hp : p < 3) :
+    idxPlus a.2.1 a.2.2 p = rowOf (inc a p) := by
+  obtain ⟨k, l, m⟩ := a
+  interval_cases p <;> simp [idxPlus, rowOf, inc]
+
+/-- when the multiplier a_p is nonzero no clamp / default is active -/
+theorem idxMinus_eq (a : Nat × Nat × Nat) (p : Nat) (hp : p < 3) (h : comp a p ≠ 0) :
+    idxMinus a.2.1 a.2.2 (mmDim (deg a)) p = rowOf (dec a p) := by
+  obtain ⟨k, l, m⟩ := a
+  interval_cases p
+  · simp only [comp, if_true] at h
+    have hlt := nIdx_lt_ncart (l := l) (m := m) (L := k + l + m - 1) (by omega)
+    have hle := ncart_pred_le_mmDim (k + l + m) (by omega)
+    simp only [idxMinus, rowOf, dec, deg, if_true]
+    omega
+  · simp +decide only [comp, if_true, if_false] at h
+    simp +decide only [idxMinus, rowOf, dec, if_true, if_false]
+    rw [if_pos (by omega)]
+  · simp +decide only [comp, if_false] at h
+    simp +decide only [idxMinus, rowOf, dec, if_false]
+    rw [if_pos (by omega)]
+
+/-- **nine mixed second derivatives** ∂²/∂A_p ∂B_q for every pair of components (a, b) -/
+theorem mixedSecond_spec (a b : Nat × Nat × Nat) (p q : Nat) (hp : p < 3) (hq : q < 3)
+    (Qmm Qmp Qpm Qpp : Blk R) :
+    mixedSecond (deg a) (deg b) (mmDim (deg a)) (mmDim (deg b)) Qmm Qmp Qpm Qpp (3 * p + q) (rowOf a) (rowOf b)
+      = (if comp a p = 0 ∨ comp b q = 0 then 0
+          else ((comp a p * comp b q : Nat) : R) * Qmm (rowOf (dec a p)) (rowOf (dec b q)))
+        - (if comp b q = 0 then 0 else 2 * ((comp b q : Nat) : R) * Qpm (rowOf (inc a p)) (rowOf (dec b q)))
+        - (if comp a p = 0 then 0 else 2 * ((comp a p : Nat) : R) * Qmp (rowOf (dec a p)) (rowOf (inc b q)))
+        + 4 * Qpp (rowOf (inc a p)) (rowOf (inc b q)) := by
+  unfold mixedSecond
+  simp only [cartList_rowOf]
+  have h3 : (3 * p + q) / 3 = p := by omega
+  have h4 : (3 * p + q) % 3 = q := by omega
+  rw [h3, h4, idxPlus_eq a p hp, idxPlus_eq b q hq]
+  by_cases ha : comp a p = 0 <;> by_cases hb : comp b q = 0 <;>
+    simp [ha, hb, idxMinus_eq, hp, hq, two, four]
+
+/-- the clamped / defaulted "minus" rows the code reads stay inside `Q_mm` -/
+theorem mixed_clamps_in_range (a : Nat × Nat × Nat) (p : Nat) (hp : p < 3) :
+    idxMinus a.2.1 a.2.2 (mmDim (deg a)) p < mmDim (deg a) := by
+  obtain ⟨k, l, m⟩ := a
+  have hpos := mmDim_pos (deg (k, l, m))
+  interval_cases p
+  · simp only [idxMinus, if_true]; omega
+  · simp +decide only [idxMinus, if_true, if_false]
+    split
+    · have hlt := nIdx_lt_ncart (l := l - 1) (m := m) (L := k + l + m - 1) (by omega)
+      have hle := ncart_pred_le_mmDim (k + l + m) (by omega)
+      simp only [deg]; omega
+    · exact hpos
+  · simp +decide only [idxMinus, if_false]
+    split
+    · have hlt := nIdx_lt_ncart (l := l) (m := m - 1) (L := k + l + m - 1) (by omega)
+      have hle := ncart_pred_le_mmDim (k + l + m) (by omega)
+      simp only [deg]; omega
+    · exact hpos
+
+/-! ### compute_shell_pair_second_derivative -/
+
+/-- layout with three distinct centres: AA = QAA, AB = QAB, BB = QBBᵀ -/
+theorem pairSecond_blocks (QAA QBB QAB : Nat → Blk R) (nA nB : Nat) :
+    (∀ i < 6, pairSecond true true QAA QBB QAB i nA nB = QAA i nA nB) ∧
+    (∀ i < 9, pairSecond true true QAA QBB QAB (6 + i) nA nB = QAB i nA nB) ∧
+    (∀ i < 6, pairSecond true true QAA QBB QAB (24 + i) nA nB = QBB i nB nA) := by
+  refine ⟨?_, ?_, ?_⟩
+  · intro i hi; interval_cases i <;> simp [pairSecond]
+  · intro i hi; interval_cases i <;> simp [pairSecond]
+  · intro i hi; interval_cases i <;> simp [pairSecond, tr]
+
+/-- **translational sum rules** (three distinct centres), for all p, q:
+AC = −(AA + AB), BC = −(BB + BA), CC = AA + AB + BA + BB -/
+theorem pairSecond_sum_rules (QAA QBB QAB : Nat → Blk R) (p q : Nat) (hp : p < 3) (hq : q < 3) (nA nB : Nat) :
+    let P := fun i => pairSecond true true QAA QBB QAB i nA nB
+    P (15 + (3 * p + q)) = -(P (symIdx p q) + P (6 + (3 * p + q))) ∧
+    P (30 + (3 * p + q)) = -(P (24 + symIdx p q) + P (6 + (3 * q + p))) ∧
+    P (39 + symIdx p q) = P (symIdx p q) + P (6 + (3 * p + q)) + P (6 + (3 * q + p)) + P (24 + symIdx p q) := by
+  interval_cases p <;> interval_cases q <;>
+    simp [pairSecond, tr, symIdx, Gen.jaas, Gen.jbbs, List.range, List.range.loop] <;> ring
+
+/-- the CC block is written twice for p ≠ q (once from (p,q), once from (q,p)); both writes store the
+same value, so the result does not depend on the loop order -/
+theorem cc_write_order_irrelevant (QAA QBB QAB : Nat → Blk R) (p q : Nat) (hp : p < 3) (hq : q < 3) (nA nB : Nat) :
+    let P := fun i => pairSecond true true QAA QBB QAB i nA nB
+    (-(P (30 + (3 * p + q))) - P (15 + (3 * p + q))) = -(P (30 + (3 * q + p))) - P (15 + (3 * q + p)) := by
+  interval_cases p <;> interval_cases q <;>
+    simp [pairSecond, Gen.jaas, Gen.jbbs] <;> ring
+
+/-- **conventions with a shell on the ECP centre** — exactly what C04's assembly assumes
+(`LowLevelConvention`): the AC, BC and CC blocks are zero, and with both shells on the ECP everything is. -/
+theorem pairSecond_convention (aOff bOff : Bool) (h : aOff = false ∨ bOff = false)
+    (QAA QBB QAB : Nat → Blk R) (nA nB : Nat) :
+    (∀ i, (15 ≤ i ∧ i < 24) ∨ (30 ≤ i ∧ i < 45) → pairSecond aOff bOff QAA QBB QAB i nA nB = 0) ∧
+    (aOff = false → bOff = false → ∀ i, pairSecond aOff bOff QAA QBB QAB i nA nB = 0) := by
+  refine ⟨?_, ?_⟩
+  · intro i hi
+    rcases h with rfl | rfl
+    · cases bOff
+      · simp [pairSecond, zeroB]
+      · simp only [pairSecond, Bool.false_eq_true, if_false, if_true]
+        rw [if_neg (by omega), if_neg (by omega), if_neg (by omega)]; rfl
+    · cases aOff
+      · simp [pairSecond, zeroB]
+      · simp only [pairSecond, Bool.false_eq_true, if_false, if_true]
+        rw [if_neg (by omega), if_neg (by omega), if_neg (by omega)]; rfl
+  · rintro rfl rfl i
+    simp [pairSecond, zeroB]
+
+/-- with shell B on the ECP centre (A elsewhere): AA = BB = QAA and AB_pq = −QAA_{pq}, i.e. moving B and
+the ECP together is minus moving A; symmetrically with shell A on the ECP centre -/
+theorem pairSecond_coincident (QAA QBB QAB : Nat → Blk R) (p q : Nat) (hp : p < 3) (hq : q < 3) (nA nB : Nat) :
+    (pairSecond true false QAA QBB QAB (symIdx p q) nA nB = QAA (symIdx p q) nA nB ∧
+     pairSecond true false QAA QBB QAB (24 + symIdx p q) nA nB = QAA (symIdx p q) nA nB ∧
+     pairSecond true false QAA QBB QAB (6 + (3 * p + q)) nA nB = -(QAA (symIdx p q) nA nB)) ∧
+    (pairSecond false true QAA QBB QAB (symIdx p q) nA nB = QBB (symIdx p q) nB nA ∧
+     pairSecond false true QAA QBB QAB (24 + symIdx p q) nA nB = QBB (symIdx p q) nB nA ∧
+     pairSecond false true QAA QBB QAB (6 + (3 * p + q)) nA nB = -(QBB (symIdx p q) nB nA)) := by
+  interval_cases p <;> interval_cases q <;>
+    simp [pairSecond, tr, symIdx, Gen.jaas]
+
+end
+
+/-! ### non-vacuity: a d-shell component, integers as blocks -/
+example : leftSecond (α := Int) 2 (qmRows2 2) (fun i j => 7 + i + j) (fun i j => 10 * i + j) (fun i j => 100 * i + j) (symIdx 0 1) (rowOf (1,1,0)) 2
+    = 1 * (7 + (rowOf (0,0,0) : Int) + 2) - 2 * 1 * (10 * (rowOf (0,2,0) : Int) + 2) - 2 * 1 * (10 * (rowOf (2,0,0) : Int) + 2)
+      + 4 * (100 * (rowOf (2,2,0) : Int) + 2) := by decide
 
 end Ecpint.C03
